@@ -219,6 +219,10 @@ def c16_scenarios(tier):
     # invoked as -f <abs config> from an unrelated directory
     for n in ([2, 5, 24] if tier == "quick" else [2, 3, 5, 13, 24, 48]):
         out.append(("c16", {"n": n, "pos": "middle", "ncmd": 1, "foreign": True}, {}))
+    # one member (first / middle / last but one) takes arguments from an argmap file
+    for n in ([2, 5, 24] if tier == "quick" else [2, 3, 5, 13, 24, 48]):
+        for k in sorted({0, n // 2, max(0, n - 2)}):
+            out.append(("c16", {"n": n, "pos": "middle", "ncmd": 1, "argmap": k}, {}))
     # further flags: --fail-on-undefined (everything is defined), the commands given as a sequence
     for n in ([2, 5, 24] if tier == "quick" else [2, 3, 5, 13, 24, 48]):
         out.append(("c16", {"n": n, "pos": "middle", "ncmd": 1, "flags": "fail-on-undefined"}, {}))
@@ -310,6 +314,9 @@ def c16_task(desc):
             for c in cmds:
                 r.command_file("", c, "x", cmd_dir="tools", name="%s.sh" % c)
             r.commit("shared tools")
+        if desc.get("argmap") is not None:
+            # one member of the group gets runtime arguments from its base argmap file
+            r.write(os.path.join(group[desc["argmap"]], "monorail/argmap/base.json"), json.dumps({c_: ["--from-argmap", "x y"] for c_ in cmds}))
         groups, _ = sched.expected_groups(r, sn)
         viol = []
         c = sched.ctlmod.Controller(s)
